@@ -221,6 +221,10 @@ type codecEntry struct {
 	// lightFrom: contexts with index >= lightFrom get the reduced C03 budget in
 	// the quick tier (the decoder does not read the part of the context that varies)
 	lightFrom int
+	// lightDialects: dialects whose contexts always get the reduced budget in the quick tier
+	lightDialects []string
+	// weight multiplies the number of valid bodies the C03 generator starts from (0 = 1)
+	weight    int
 	mk        func(c codecCtx) codecRecv
 	hasEncode bool
 	hasString bool
@@ -235,6 +239,19 @@ type codecEntry struct {
 	wire func(r *fw.Rng, c codecCtx) []byte
 	// wrap turns a raw (mutable) form into the decoder's input (jt808 frames: checksum+escape).
 	wrap func(raw []byte) []byte
+}
+
+// fullCtx tells whether context number ci gets the full C03 mutation budget in the quick tier.
+func (e *codecEntry) fullCtx(ci int) bool {
+	if ci >= e.lightFrom {
+		return false
+	}
+	for _, d := range e.lightDialects {
+		if strings.HasSuffix(e.ctxs[ci], "/"+d) {
+			return false
+		}
+	}
+	return true
 }
 
 func (e *codecEntry) hasCtx(s string) bool {
@@ -372,14 +389,16 @@ func codecBuildRegistry() []*codecEntry {
 	for _, id := range codecExtIDs {
 		id := id
 		name := fmt.Sprintf("T0x0200AdditionExtension0x%02x", id)
-		add(&codecEntry{name: name, sig: name + ".Parse", ctxs: codecDialectCtxs(), lightFrom: 5, hasString: true,
+		// the shared base block reads a 16-byte alarm sign: with a 30-byte terminal id (HLJ, GD, SC)
+		// the parser cannot get past it, so those contexts need fewer cases
+		add(&codecEntry{name: name, sig: name + ".Parse", ctxs: codecDialectCtxs(), lightFrom: 5, lightDialects: []string{"HLJ", "GD", "SC"}, hasString: true,
 			mk: func(c codecCtx) codecRecv { return &codecExtRecv{id: id, v: codecNewExt(id, c)} }})
 	}
 	// … and plugged into T0x0200 through CustomAdditionContentFunc: body = 0x0200 body
 	for _, id := range codecExtIDs {
 		id := id
 		name := fmt.Sprintf("T0x0200+Extension0x%02x", id)
-		add(&codecEntry{name: name, sig: name + ".Parse", ctxs: codecDialectCtxs(), lightFrom: 5, hasEncode: true, hasString: true,
+		add(&codecEntry{name: name, sig: name + ".Parse", ctxs: codecDialectCtxs(), lightFrom: 5, lightDialects: []string{"HLJ", "GD", "SC"}, hasEncode: true, hasString: true,
 			mk: func(c codecCtx) codecRecv {
 				ext := codecNewExt(id, c)
 				t := &model.T0x0200{}
@@ -389,9 +408,9 @@ func codecBuildRegistry() []*codecEntry {
 	}
 
 	// frame decoders
-	add(&codecEntry{name: "jt808.JTMessage", sig: "jt808.JTMessage.Decode", ctxs: []string{"-"}, lightFrom: 1, hasString: true,
+	add(&codecEntry{name: "jt808.JTMessage", sig: "jt808.JTMessage.Decode", ctxs: []string{"-"}, lightFrom: 1, weight: 4, hasString: true,
 		mk: func(codecCtx) codecRecv { return &codecFrameRecv{m: jt808.NewJTMessage()} }})
-	add(&codecEntry{name: "jt1078.Packet", sig: "jt1078.Packet.Decode", ctxs: []string{"-"}, lightFrom: 1, hasString: true,
+	add(&codecEntry{name: "jt1078.Packet", sig: "jt1078.Packet.Decode", ctxs: []string{"-"}, lightFrom: 1, weight: 8, hasString: true,
 		mk: func(codecCtx) codecRecv { return &codecRTPRecv{p: jt1078.NewPacket()} }})
 
 	codecAttachGenerators(es)
